@@ -1,0 +1,217 @@
+//go:build verif
+
+/*
+ * Verification hook for property C20 (build tag "verif"): read-only snapshots of the
+ * construction-time state of a Graph / Chain / Workflow builder (node table with "type
+ * known" flags, control and data edges, branches, start/end nodes, edges waiting for type
+ * inference, field mapping records, sizes of the three handler maps, build error,
+ * compiled flag; Chain: deferred error, node index, previous node keys; Workflow: per
+ * node the number of deferred inputs and the mapped target paths).  Everything is
+ * returned sorted, so that the correspondence harness can compare it with the model's
+ * state after every call.  Add-only; compiled out of every normal build.
+ */
+
+package compose
+
+import "sort"
+
+type VerifC20Node struct {
+	Key     string
+	In, Out bool // input / output type known
+}
+
+type VerifC20Branch struct {
+	Start  string
+	Ends   []string
+	NoData bool
+}
+
+type VerifC20Pending struct {
+	Start, End string
+	NFields    int
+}
+
+type VerifC20Count struct {
+	Key string // node key, or "start>end" for an edge
+	N   int
+}
+
+type VerifC20Graph struct {
+	Nodes      []VerifC20Node
+	Ctrl, Data [][2]string
+	Branches   []VerifC20Branch
+	Starts     []string
+	Ends       []string
+	Pending    []VerifC20Pending
+	FM         map[string][]string // node -> mapped target fields (To), sorted
+	HEdges     []VerifC20Count     // handlers on edges
+	HPreNode   []VerifC20Count     // handlers before nodes
+	HPreBranch []VerifC20Count     // branches registered per start node
+	Err        string              // text of the build error, "" if none
+	Compiled   bool
+}
+
+func verifC20Pairs(m map[string][]string) [][2]string {
+	var out [][2]string
+	for s, es := range m {
+		for _, e := range es {
+			out = append(out, [2]string{s, e})
+		}
+	}
+	sort.Slice(out, func(i, j int) bool {
+		if out[i][0] != out[j][0] {
+			return out[i][0] < out[j][0]
+		}
+		return out[i][1] < out[j][1]
+	})
+	return out
+}
+
+func verifC20Counts(m map[string]int) []VerifC20Count {
+	var out []VerifC20Count
+	for k, n := range m {
+		out = append(out, VerifC20Count{k, n})
+	}
+	sort.Slice(out, func(i, j int) bool { return out[i].Key < out[j].Key })
+	return out
+}
+
+// VerifC20Snapshot is promoted to *Graph[I, O].
+func (g *graph) VerifC20Snapshot() *VerifC20Graph {
+	s := &VerifC20Graph{FM: map[string][]string{}, Compiled: g.compiled}
+	for k, n := range g.nodes {
+		s.Nodes = append(s.Nodes, VerifC20Node{Key: k, In: n.inputType() != nil, Out: n.outputType() != nil})
+	}
+	sort.Slice(s.Nodes, func(i, j int) bool { return s.Nodes[i].Key < s.Nodes[j].Key })
+	s.Ctrl = verifC20Pairs(g.controlEdges)
+	s.Data = verifC20Pairs(g.dataEdges)
+	for start, bs := range g.branches {
+		for _, b := range bs {
+			var ends []string
+			for e := range b.endNodes {
+				ends = append(ends, e)
+			}
+			sort.Strings(ends)
+			s.Branches = append(s.Branches, VerifC20Branch{Start: start, Ends: ends, NoData: b.noDataFlow})
+		}
+	}
+	sort.Slice(s.Branches, func(i, j int) bool {
+		a, b := s.Branches[i], s.Branches[j]
+		if a.Start != b.Start {
+			return a.Start < b.Start
+		}
+		if len(a.Ends) != len(b.Ends) {
+			return len(a.Ends) < len(b.Ends)
+		}
+		for k := range a.Ends {
+			if a.Ends[k] != b.Ends[k] {
+				return a.Ends[k] < b.Ends[k]
+			}
+		}
+		return !a.NoData && b.NoData
+	})
+	s.Starts = append([]string(nil), g.startNodes...)
+	sort.Strings(s.Starts)
+	s.Ends = append([]string(nil), g.endNodes...)
+	sort.Strings(s.Ends)
+	for start, l := range g.toValidateMap {
+		for _, p := range l {
+			s.Pending = append(s.Pending, VerifC20Pending{Start: start, End: p.endNode, NFields: len(p.mappings)})
+		}
+	}
+	sort.Slice(s.Pending, func(i, j int) bool {
+		a, b := s.Pending[i], s.Pending[j]
+		if a.Start != b.Start {
+			return a.Start < b.Start
+		}
+		if a.End != b.End {
+			return a.End < b.End
+		}
+		return a.NFields < b.NFields
+	})
+	for k, ms := range g.fieldMappingRecords {
+		var to []string
+		for _, m := range ms {
+			to = append(to, m.to)
+		}
+		sort.Strings(to)
+		s.FM[k] = to
+	}
+	he := map[string]int{}
+	for a, m := range g.handlerOnEdges {
+		for b, hs := range m {
+			if len(hs) > 0 {
+				he[a+">"+b] = len(hs)
+			}
+		}
+	}
+	s.HEdges = verifC20Counts(he)
+	hn := map[string]int{}
+	for k, hs := range g.handlerPreNode {
+		if len(hs) > 0 {
+			hn[k] = len(hs)
+		}
+	}
+	s.HPreNode = verifC20Counts(hn)
+	hb := map[string]int{}
+	for k, hs := range g.handlerPreBranch {
+		if len(hs) > 0 {
+			hb[k] = len(hs)
+		}
+	}
+	s.HPreBranch = verifC20Counts(hb)
+	if g.buildError != nil {
+		s.Err = g.buildError.Error()
+	}
+	return s
+}
+
+type VerifC20Chain struct {
+	Graph  *VerifC20Graph
+	Err    string
+	Idx    int
+	Pre    []string
+	HasEnd bool
+}
+
+func (c *Chain[I, O]) VerifC20Snapshot() *VerifC20Chain {
+	s := &VerifC20Chain{Graph: c.gg.VerifC20Snapshot(), Idx: c.nodeIdx, HasEnd: c.hasEnd}
+	if c.err != nil {
+		s.Err = c.err.Error()
+	}
+	s.Pre = append([]string(nil), c.preNodeKeys...)
+	sort.Strings(s.Pre)
+	return s
+}
+
+type VerifC20WfNode struct {
+	Key      string
+	NPending int      // deferred AddInput / AddDependency calls not yet applied
+	Whole    bool     // the entire input has been mapped
+	Fields   []string // first segments of the mapped target paths, sorted
+}
+
+type VerifC20Workflow struct {
+	Graph     *VerifC20Graph
+	Nodes     []VerifC20WfNode
+	NBranches int
+}
+
+func (wf *Workflow[I, O]) VerifC20Snapshot() *VerifC20Workflow {
+	s := &VerifC20Workflow{Graph: wf.g.VerifC20Snapshot(), NBranches: len(wf.workflowBranches)}
+	for k, n := range wf.workflowNodes {
+		wn := VerifC20WfNode{Key: k, NPending: len(n.addInputs)}
+		switch m := n.mappedFieldPath[""].(type) {
+		case struct{}:
+			wn.Whole = true
+		case map[string]any:
+			for f := range m {
+				wn.Fields = append(wn.Fields, f)
+			}
+			sort.Strings(wn.Fields)
+		}
+		s.Nodes = append(s.Nodes, wn)
+	}
+	sort.Slice(s.Nodes, func(i, j int) bool { return s.Nodes[i].Key < s.Nodes[j].Key })
+	return s
+}
